@@ -188,6 +188,7 @@ def runHS (p : Params) (t : List String) (implObs : String) : String × List Str
        [s!"C12 honest-handshake-failed a={kvStr io "a"} b={kvStr io "b"} pads={o.padA.length},{i.padB.length},{o.padCLen},{i.padDLen}"]
      else [])
   let tags :=
+    (if viol.isEmpty ∧ isOk s.resA ∧ isOk s.resB ∧ o.padA.length ≤ 511 ∧ i.padB.length ≤ 511 then ["branch:liveness-checked"] else []) ++
     (if isOk s.resA ∧ isOk s.resB then ["branch:both-ok", s!"branch:selected-{selOf s.resA}"] else ["branch:both-fail"]) ++
     (match s.resB with | .error e => [s!"branch:b-{e.toString}"] | _ => []) ++
     (match s.resA with | .error e => [s!"branch:a-{e.toString}"] | _ => []) ++
